@@ -341,7 +341,11 @@ def _sources(tv, full=True):
                     if T.ret_ty(ret) != tv or not T.step_ok(1, par, ret):
                         continue
                     if T.ret_shape(ret) == "async":
-                        continue          # async-returning Run functions are drawn by the sampler
+                        # a Run/Schedule function that itself returns a handle: one inner program per cell
+                        cat = inner_catalogue(T.ret_akind(ret), T.ret_ty(ret))
+                        q = clone(cat[(len(out) * 7) % len(cat)])
+                        out.append({"src": ("run", w, e, mkfn(par, ret, ("async", q))), "ops": []})
+                        continue
                     for b in plain_behs(ret):
                         out.append({"src": ("run", w, e, mkfn(par, ret, b)), "ops": []})
     for (w, es) in (("F", ["i"]), ("O", ["m0", "s"]), ("S", ["i"]), ("SO", ["m1"]), ("T", ["i", "m0", "s"])):
@@ -524,6 +528,10 @@ def random_program(rng, min_len=4, max_len=8, depth=0):
 def invocable_from_coq():
     hdr = "From Coq Require Import List ZArith. Import ListNotations.\nFrom YV Require Import model.Pipe model.PipeObs.\n"
     ok, out = vlib.coqc_eval(hdr + "Eval vm_compute in invocable_table.\n", "pipe_inv_%d" % os.getpid())
+    try:
+        os.remove(os.path.join(vlib.COQ, "cases", "pipe_inv_%d.v" % os.getpid()))
+    except OSError:
+        pass
     m = re.search(r"=\s*\[([^\]]*)\]\s*:\s*list Z", out.replace("\n", " "))
     if not ok or not m:
         raise vlib.BuildError("cannot evaluate Pipe.invocable_table:\n" + out[-2000:])
@@ -624,7 +632,7 @@ def run_programs(exe, progs, tag, extra_args=(), timeout=1500):
             f.write("\n".join(ps) + "\n")
         try:
             r = subprocess.run([exe, "--programs", path] + list(extra_args), stdout=subprocess.PIPE, stderr=subprocess.PIPE,
-                               text=True, timeout=timeout)
+                               encoding="utf-8", errors="replace", timeout=timeout)
             out, err = r.stdout, r.stderr
         except subprocess.TimeoutExpired as ex:
             out = ex.stdout.decode() if isinstance(ex.stdout, bytes) else (ex.stdout or "")
